@@ -527,6 +527,7 @@ type wmConcCase struct {
 	IncPct     int   `json:"inc_pct"`  // chance that taking an index also advances the counter
 	WaitPct    int   `json:"wait_pct"` // chance that a worker also waits for an earlier index
 	HoldPct    int   `json:"hold_pct"` // chance that Done is handed to another goroutine
+	Crowd      int   `json:"crowd"`    // size of the crowds of waiters on one index (0: single waiters only)
 }
 
 func runWMConc(c wmConcCase) (msg string, nontrivial bool, classes []string) {
@@ -614,15 +615,23 @@ func runWMConc(c wmConcCase) (msg string, nontrivial bool, classes []string) {
 				}
 				if rng.Intn(100) < c.WaitPct && i > 3 {
 					t := i - 1 - uint64(rng.Intn(3))
-					wt := &wmWaiter{t: t, done: make(chan struct{})}
-					wmu.Lock()
-					waiters = append(waiters, wt)
-					wmu.Unlock()
-					go func() {
-						wt.err = w.WaitForMark(context.Background(), wt.t)
-						wt.dAtRet = w.DoneUntil()
-						close(wt.done)
-					}()
+					// one waiter, or now and then a crowd on the same index (all released by one
+					// pass of the consumer; each looks at DoneUntil the moment it is released)
+					n := 1
+					if c.Crowd > 0 && rng.Intn(3) == 0 {
+						n = c.Crowd
+					}
+					for q := 0; q < n; q++ {
+						wt := &wmWaiter{t: t, done: make(chan struct{})}
+						wmu.Lock()
+						waiters = append(waiters, wt)
+						wmu.Unlock()
+						go func() {
+							wt.err = w.WaitForMark(context.Background(), wt.t)
+							wt.dAtRet = w.DoneUntil()
+							close(wt.done)
+						}()
+					}
 				}
 				if rng.Intn(100) < c.HoldPct {
 					handoff <- i
@@ -677,6 +686,9 @@ func runWMConc(c wmConcCase) (msg string, nontrivial bool, classes []string) {
 	if handed > 0 {
 		classes = append(classes, "done_from_other_goroutine")
 	}
+	if c.Crowd > 0 && len(waiters) >= c.Crowd {
+		classes = append(classes, "crowd_of_waiters_on_one_index")
+	}
 	if c.Goroutines*c.Iters > 100 {
 		classes = append(classes, "more_marks_than_buffer")
 	}
@@ -705,6 +717,7 @@ func TestC13Conc(t *testing.T) {
 			IncPct:     rapid.SampledFrom([]int{30, 60, 90, 100}).Draw(rt, "inc"),
 			WaitPct:    rapid.SampledFrom([]int{0, 10, 40}).Draw(rt, "wait"),
 			HoldPct:    rapid.SampledFrom([]int{0, 20, 60}).Draw(rt, "hold"),
+			Crowd:      rapid.SampledFrom([]int{0, 0, 16, 64, 200}).Draw(rt, "crowd"),
 		}
 		cj := vlib.JSON(c)
 		rec.Begin(cj)
